@@ -44,6 +44,10 @@ func symbols(metric string) *sl.Symbols {
 		sl.Op{Name: "del1", Kind: "del", Ids: []int{1}},
 		sl.Op{Name: "del2,3", Kind: "del", Ids: []int{2, 3}},
 		sl.Op{Name: "ins1(again, elsewhere)", Kind: "ins", Ids: []int{1}, Docs: []sl.Doc{d(6)}},
+		// batches whose storage transaction fails to commit after every index has done its work
+		sl.Op{Name: "ins8 !commit-fails", Kind: "ins", Ids: []int{8}, Docs: []sl.Doc{d(7)}},
+		sl.Op{Name: "upd1(move) !commit-fails", Kind: "upd", Ids: []int{1}, Docs: []sl.Doc{{prop: st[4]}}},
+		sl.Op{Name: "del1 !commit-fails", Kind: "del", Ids: []int{1}},
 	)
 	// 30 lattice points (ids 101..130) so that the collection crosses searchSize-1
 	thirty := sl.Op{Name: "ins30", Kind: "ins"}
@@ -206,6 +210,11 @@ func master(cfg *harness.Config, rep *harness.Report) {
 			specs = append(specs, seqx.Spec{Name: fmt.Sprintf("%s/%s/%s", c.metric, c.q.name, inst.name), Cfg: cc, Alphabet: syms.Refs(alpha...), Depth: inst.d})
 			if inst.name == "warm" {
 				specs = append(specs, seqx.Spec{Name: fmt.Sprintf("%s/%s/%s/from30", c.metric, c.q.name, inst.name), Cfg: cc, Alphabet: syms.Refs(alpha...), Depth: inst.d - 1, Starts: [][]any{syms.Refs("ins30")}})
+			}
+			if inst.name == "warm" && (c.q.name == none.name || c.q.name == product.name) {
+				// failing commits: a small alphabet of its own (the failing batches must leave the warm caches as they were)
+				failing := []string{"ins1", "ins2,3", "queries", "ins8 !commit-fails", "upd1(move) !commit-fails", "del1 !commit-fails"}
+				specs = append(specs, seqx.Spec{Name: fmt.Sprintf("%s/%s/%s/failing-commits", c.metric, c.q.name, inst.name), Cfg: cc, Alphabet: syms.Refs(failing...), Depth: inst.d, Starts: [][]any{{}, syms.Refs("ins30")}})
 			}
 		}
 	}
